@@ -9,7 +9,8 @@ CONSTANTS PeerMaxes,    \* peer's max_datagram_frame_size values (0 = disabled)
           LocalMaxes,   \* our max_datagram_frame_size values; {} = the same value as the peer's (loop-back pairing)
           MaxPktG,      \* frame space of an empty full-size packet
           Ops,          \* subset of {"send","pack","packfull","lose","deliver","inject","read","connerr"}
-          Big,          \* a payload size beyond every limit of interest
+          SendBase,     \* payload sizes tried whatever the limit (0, 1, one beyond every limit)
+          SendAround,   \* offsets d: payload sizes peerMax - 4 + d are tried (0..5 = limit-4 .. limit+1)
           Depth
 VARIABLE hist
 Configs == IF LocalMaxes = {} THEN {<<pm, pm, MaxPktG>> : pm \in PeerMaxes}
@@ -20,7 +21,7 @@ Clip(S) == {x \in S : x >= 0}
 N0(a, b) == IF a > b THEN a - b ELSE 0
 \* the configuration of this run, as chosen by the first step
 Cfg == hist[1]
-SendSizes == {0, 1, Big} \cup {N0(peerMax, 4) + d : d \in 0..5}
+SendSizes == SendBase \cup {N0(peerMax, 4) + d : d \in SendAround}
 PackSpaces == IF queue = <<>> THEN {0, maxPkt}
               ELSE {N0(Head(queue).size, 1)} \cup {Head(queue).size + d : d \in 0..(VL(Head(queue).size) + 2)}
 InjSizes == {0} \cup {N0(localMax, 5) + d : d \in 0..6}
@@ -32,8 +33,8 @@ Prologue ==
 Body ==
     /\ Len(hist) >= 3 /\ Len(hist) < Depth + 3
     /\ \/ "send" \in Ops /\ \E s \in SendSizes : Send(s) /\ H(<<"send", s>>)
-       \/ "pack" \in Ops /\ \E sp \in PackSpaces : Pack(sp) /\ H(<<"pack", sp>>)
-       \/ "packfull" \in Ops /\ Pack(maxPkt) /\ H(<<"pack", maxPkt>>)
+       \/ "pack" \in Ops /\ \E sp \in PackSpaces : PackAsCode(sp) /\ H(<<"pack", sp>>)
+       \/ "packfull" \in Ops /\ PackAsCode(maxPkt) /\ H(<<"pack", maxPkt>>)
        \/ "lose" \in Ops /\ \E i \in DOMAIN net : Lose(i) /\ H(<<"lose", i>>)
        \/ "deliver" \in Ops /\ Deliver /\ H(<<"deliver">>)
        \/ "inject" \in Ops /\ \E s \in InjSizes, w \in BOOLEAN : Inject(s, w) /\ H(<<"inject", s, w>>)
